@@ -55,6 +55,9 @@ type DeferredCarWriter struct {
 	w      carstorage.WritableCar
 	putCb  []putCb
 	opts   []carv2.Option
+	// streamErr is set when writing the CAR header to outStream failed: the stream may hold part
+	// of a header, so nothing more must be written to it.
+	streamErr error
 }
 
 // NewDeferredCarWriterForPath creates a DeferredCarWriter that will write to a
@@ -143,6 +146,9 @@ func (dcw *DeferredCarWriter) Put(ctx context.Context, key string, content []byt
 
 // writer()
 func (dcw *DeferredCarWriter) writer() (carstorage.WritableCar, error) {
+	if dcw.streamErr != nil {
+		return nil, dcw.streamErr
+	}
 	if dcw.w == nil {
 		outStream := dcw.outStream
 		if outStream == nil {
@@ -155,6 +161,9 @@ func (dcw *DeferredCarWriter) writer() (carstorage.WritableCar, error) {
 		}
 		w, err := carstorage.NewWritable(outStream, dcw.roots, dcw.opts...)
 		if err != nil {
+			if dcw.outStream != nil {
+				dcw.streamErr = err
+			}
 			return nil, err
 		}
 		dcw.w = w
@@ -174,6 +183,8 @@ func (dcw *DeferredCarWriter) Close() (err error) {
 
 	if dcw.w != nil {
 		err = dcw.w.Finalize()
+	} else if dcw.streamErr != nil {
+		err = dcw.streamErr
 	}
 
 	if dcw.f != nil {
